@@ -235,7 +235,10 @@ def connector_script(rng, k: int, self_id: int, target_id: int, *, spelled: bool
     target_text = spell(rng, target_id, target_mode) if spelled else peer_hex(target_id)
     con = b"CONNECT " + self_text.encode() + b" " * rng.choice([1, 1, 1, 2]) + target_text.encode() + (b"\r\n" if rng.random() < 0.2 else b"\n")
     identity = rand_bytes(rng, 32)
-    style = rng.choice(["plain", "plain", "pipelined", "fragments", "all-in-one", "short"])
+    if rng.random() < 0.35:   # an identity whose early bytes contain newlines / look like a command line
+        head = rng.choice([b"\n", b"PONG\n", b"\r\n\n", b"REGISTER \n", b"x\ny\n", b"CONNECT a b\n"])
+        identity = head + identity[len(head):]
+    style = rng.choice(["plain", "plain", "pipelined", "fragments", "fragments", "all-in-one", "short"])
     if style == "plain":
         ph[1].append(snd(k, con))
         ph[2].append(snd(k, identity))
@@ -292,6 +295,8 @@ def gen_burst(rng, big: bool) -> Case:
     ops.append(snd(1, b"REGISTER " + peer_hex(tid).encode() + nl))
     con = b"CONNECT " + peer_hex(sid).encode() + b" " + peer_hex(tid).encode() + nl
     identity = rand_bytes(rng, 32)
+    if rng.random() < 0.3:
+        identity = b"\n" + identity[1:]
     size = rng.choice(BURST_SIZES if big else BURST_SIZES[:13])
     style = rng.choice(["whole", "whole", "split", "with-connect", "short-then-burst"])
     early_target_talk = rng.random() < 0.35
@@ -633,7 +638,8 @@ def spec() -> Spec:
              "RelayServer on loopback sockets (harness-scheduled events, drained after every op): re-registration of a claimed peer, "
              "one peer id spelled lower/UPPER/MiXed across REGISTER, CONNECT self and CONNECT target with several connectors per peer, "
              "identity + 4 KiB..64 KiB of pipelined data in one write (no newline / newlines / command look-alikes; identity whole, "
-             "split, or behind CONNECT; target talking before the identity arrives), back-pressure (a bridged client with 4 KiB socket "
+             "split (also with newlines / command look-alikes in the first fragment), or behind CONNECT; target talking before the "
+             "identity arrives), back-pressure (a bridged client with 4 KiB socket "
              "buffers stops reading while its partner pushes 70 KB..400 KB, thorough up to 4 MiB, then reads again: the relay gets "
              "short writes), "
              "duplicate ids, CONNECT from registered sessions, self-connect, pipelined and fragmented commands/identity, payloads around "
